@@ -36,8 +36,7 @@ func exec(op string) (res string) {
 		p, t, v, g := valgen.ParseRT(w[1:])
 		return valgen.RoundTripSame(p, t, v, g)
 	case "rtx":
-		p, t, v, g := valgen.ParseRT(w[1:])
-		return valgen.RoundTrip(p, t, v, g)
+		return execRtx(w[1:])
 	case "hseq":
 		return execHseq(w[1:])
 	}
